@@ -258,7 +258,7 @@ func (s *Sim) Run() {
 			est = 10
 		}
 		for i := 0; i < s.Depth; i++ {
-			s.change[1+s.schedRng.IntN(est)] = true
+			s.change[s.stepNo+1+s.schedRng.IntN(est)] = true
 		}
 	}
 	first := s.pickNext(nil)
@@ -580,6 +580,9 @@ func pathArgs(args []reflect.Value) []string {
 	}
 	return p
 }
+
+// ResClass summarises a result list: ok | E<errno> | err | -
+func ResClass(res []reflect.Value) string { return resClass(res) }
 
 func resClass(res []reflect.Value) string {
 	for _, r := range res {
